@@ -525,6 +525,69 @@ Section Sem.
     rewrite !concat_app, V1, V2, T1, T2, app_nil_r. reflexivity.
   Qed.
 
+  (* ---------------------------------------------------------------- explicit concatenation *)
+  (* the operands of the explicit form  "" + s0 + "$" + s1 + conv(e1) + ... *)
+  Definition conv_expr (t : ty) (x : expr) : expr :=
+    match string_conv t with SCid => x | SCconv c => EToStr c x | SCnone => EToStr CBool x end.
+  Fixpoint explicit_items (l : list (str * form)) : list expr :=
+    match l with
+    | [] => []
+    | (s, FDD) :: t => EConst (VStr (lit_val s)) :: EConst (VStr [dollar]) :: explicit_items t
+    | (s, FEmb e) :: t => EConst (VStr (lit_val s)) :: (let '(ty, x) := parse e in conv_expr ty x) :: explicit_items t
+    end.
+  Definition explicit_tail (tl : str) (td : bool) : list expr :=
+    EConst (VStr (lit_val tl)) :: if td then [EConst (VStr [dollar])] else [].
+  Definition plus_chain (es : list expr) : expr := fold_left (EBin BAdd) es (EConst (VStr [])).
+  Definition explicit_concat (l : list (str * form)) (tl : str) (td : bool) : expr :=
+    plus_chain (explicit_items l ++ explicit_tail tl td).
+
+  Lemma plus_fold en : forall es svs tes, Forall3 (pev en) es svs tes ->
+    forall acc sacc tacc, pev en acc sacc tacc ->
+    pev en (fold_left (EBin BAdd) es acc) (sacc ++ concat svs) (tacc ++ concat tes).
+  Proof. induction 1 as [|E sv te es svs tes H _ IH]; intros acc sacc tacc Ha.
+    - cbn [fold_left concat]. now rewrite !app_nil_r.
+    - cbn [fold_left concat]. rewrite !app_assoc. apply IH.
+      intros tr. rewrite ev_EBin. unfold ev1. rewrite Ha. cbn [one]. rewrite H. cbn [one bin_eval].
+      now rewrite <- app_assoc. Qed.
+
+  Lemma explicit_items_sem en l v te : items_sem en l v te ->
+    exists svs tes, Forall3 (pev en) (explicit_items l) svs tes /\ concat svs = v /\ concat tes = te.
+  Proof. induction 1 as [|s t v te H IH|s e t ty x sv te1 v te Hp Hop H IH].
+    - exists [], []. repeat split; constructor.
+    - destruct IH as (svs & tes & HF & Hv & Ht).
+      exists (lit_val s :: [dollar] :: svs), ([] :: [] :: tes). cbn [explicit_items]. repeat split.
+      + constructor; [apply pev_const|]. constructor; [apply pev_const|exact HF].
+      + cbn [concat]. rewrite Hv. reflexivity.
+      + cbn [concat]. exact Ht.
+    - destruct IH as (svs & tes & HF & Hv & Ht).
+      destruct (lower_operand en ty x sv te1 Hop) as (E & HE & HEv).
+      assert (E = conv_expr ty x) as ->.
+      { unfold lower_part in HE. unfold conv_expr. destruct (string_conv ty); congruence. }
+      exists (lit_val s :: sv :: svs), ([] :: te1 :: tes). cbn [explicit_items]. rewrite Hp. repeat split.
+      + constructor; [apply pev_const|]. constructor; [exact HEv|exact HF].
+      + cbn [concat]. now rewrite Hv.
+      + cbn [concat app]. now rewrite Ht.
+  Qed.
+
+  Lemma explicit_correct en l tl td v te : items_sem en l v te ->
+    forall tr, ev (explicit_concat l tl td) en tr = (RVal [VStr (v ++ tail_val tl td)], en, tr ++ te).
+  Proof.
+    intros HS. destruct (explicit_items_sem en l v te HS) as (svs & tes & HF & Hv & Ht).
+    assert (HT : Forall3 (pev en) (explicit_tail tl td) (lit_val tl :: if td then [[dollar]] else []) ([] :: if td then [[]] else [])).
+    { unfold explicit_tail. constructor; [apply pev_const|]. destruct td; [constructor; [apply pev_const|constructor]|constructor]. }
+    pose proof (plus_fold en _ _ _ (Forall3_app _ _ _ _ _ _ _ HF HT) (EConst (VStr [])) [] [] (pev_const en [])) as P.
+    intros tr. unfold explicit_concat, plus_chain. rewrite (P tr). cbn [app]. rewrite !concat_app, Hv, Ht.
+    unfold tail_val. destruct td; cbn [concat]; rewrite ?app_nil_r; reflexivity.
+  Qed.
+
+  (* string interpolation equals explicit concatenation: same value, same environment, same effects *)
+  Lemma interp_eq_explicit en l tl td v te : wf l tl -> l <> [] -> items_sem en l v te ->
+    exists ps E, split_lit (render l tl td) = Ok (Some ps, None) /\
+                 lower_interp lit_val (map (cpart_of (render l tl td)) ps) = Some E /\
+                 forall tr, ev E en tr = ev (explicit_concat l tl td) en tr.
+  Proof. intros W Hne HS. destruct (interp_correct en l tl td v te W Hne HS) as (ps & E & A & B & C).
+    exists ps, E. repeat split; auto. intros tr. rewrite C. symmetry. now apply explicit_correct. Qed.
+
   (* the compiler has no `.string` for bool: the documented meaning exists, the lowering does not *)
   Lemma interp_bool_rejected x : lower_interp lit_val [CExpr TBool x] = None.
   Proof. reflexivity. Qed.
